@@ -1008,14 +1008,15 @@ void SLUFactor<R>::assign(const SLUFactor<R>& old)
    memcpy(this->l.start, old.l.start, (unsigned int)this->l.startSize * sizeof(*this->l.start));
    memcpy(this->l.row,   old.l.row, (unsigned int)this->l.startSize * sizeof(*this->l.row));
 
-   if(!old.l.rval.empty())
+   if(old.l.ridx != nullptr)
    {
-      assert(old.l.ridx  != nullptr);
       assert(old.l.rbeg  != nullptr);
       assert(old.l.rorig != nullptr);
       assert(old.l.rperm != nullptr);
 
-      int memsize = this->l.start[this->l.firstUpdate];
+      // the row-wise copy of L holds as many entries as it had when it was set up (setupRowVals()); after a factorization
+      // that did not succeed it is a leftover of the previous one and l.start[l.firstUpdate] no longer describes its size
+      int memsize = int(old.l.rval.size());
 
       this->l.rval.reserve(memsize); // small performance improvement for copying
       spx_alloc(this->l.ridx,  memsize);
